@@ -5,9 +5,10 @@ VERIF = os.path.dirname(os.path.dirname(os.path.abspath(__file__)))
 sys.path.insert(0, os.path.join(VERIF, 'tools'))
 import registry, manifest_text as T
 props = [json.loads(l)['id'] for l in open(os.path.join(VERIF, 'properties.jsonl'))]
+claimed = set(open(os.path.join(VERIF, 'tools', 'claimed.txt')).read().split())
 checks = []
 for pid in props:
-    if pid not in registry.PROPS:
+    if pid not in registry.PROPS or pid not in claimed:
         continue
     spec = registry.PROPS[pid]
     t = registry.MANIFEST_TEXT[pid]
@@ -24,7 +25,7 @@ for pid in props:
                                         'correspondence with the real code + model-independent oracle search'),
     })
 na = [{'property_id': p, 'reason': T.NOT_CLAIMED.get(p, 'check not built yet (in progress); not claimed until its theorems and correspondence run clean')}
-      for p in props if p not in registry.PROPS]
+      for p in props if p not in registry.PROPS or p not in claimed]
 man = {
     'version': 1,
     'setup_cmd': 'python3 tools/setup.py',
